@@ -60,6 +60,10 @@ func c16Clobber(r *vf.Run) {
 		{"partial-index", func(p string) { _ = os.WriteFile(p, validBytes[:len(validBytes)/2], 0o644) }},
 		{"read-only-mode", func(p string) { _ = os.WriteFile(p, validBytes, 0o444) }},
 		{"text", func(p string) { _ = os.WriteFile(p, []byte("precious\n"), 0o600) }},
+		{"symlink-to-valid-index", func(p string) {
+			_ = os.WriteFile(p+".target", validBytes, 0o644)
+			_ = os.Symlink(p+".target", p)
+		}},
 	}
 	contents := []struct {
 		name string
@@ -122,8 +126,12 @@ func c16Clobber(r *vf.Run) {
 					if after.MTime != before.MTime {
 						r.Count("mtime_changed_without_content_change", 1)
 					}
+					if lst, err := os.Lstat(out); p.kind == "symlink-to-valid-index" && (err != nil || lst.Mode()&os.ModeSymlink == 0) {
+						r.Violation(cid, "existing-symlink-replaced", w)
+					}
 					_ = os.Chmod(out, 0o644)
 					os.Remove(out)
+					os.Remove(out + ".target")
 				})
 			}
 		}
